@@ -480,8 +480,10 @@ static KV genCase()
         s.fmg_cycle  = rint(0, 2);
         s.extrapolation = rweighted({2, 2, 0, 2}); // none, implicit, combined
         s.max_levels = rpick({-1, 2, 2, 3, 4, 5});
-        s.pre        = rint(1, 2);
-        s.post       = rint(1, 2);
+        // 0 is an accepted number of smoothing steps (cycles that only post-smooth or only pre-smooth are in common use);
+        // no smoothing at all is left to C10/C20
+        s.pre  = rint(0, 2);
+        s.post = rint(s.pre == 0 ? 1 : 0, 2);
         s.threads    = rpick({1, 2});
         s.strategy   = rint(0, 1);
         if (s.strategy == 1) {
